@@ -571,25 +571,25 @@ PARTS = {
                      "unsorted arrays (correspondence only); single 128-value blocks of every width; literal-scraped values; "
                      "decoders on non-encoder streams (non-minimal widths, partial blocks with any count byte). "
                      "non-trivial = at least one element",
-                configs_quick=["pinned", "O0"], configs_thorough=CFG_T),
+                configs_quick=["pinned", "O0", "native"], configs_thorough=CFG_T),
     "C03": dict(coq_props=["Properties_C03_bp128"], files=FILES, generate=generate_C03,
                 oracles=ORACLES_C03,
                 classify=classify, search=search, assumptions=ASSUME,
                 rule="bp128: destination of exactly varintBP128MaxBytes(count) bytes inside canaries; worst cases: "
                      "UINT64_MAX/UINT32_MAX blocks, 9-byte first value followed by 64-bit deltas (sorted and wrapping), "
                      "every width x length class, count 0, the bound itself for counts 0..399 and large counts",
-                configs_quick=["pinned", "O0"], configs_thorough=CFG_T),
+                configs_quick=["pinned", "O0", "native"], configs_thorough=CFG_T),
     "C13": dict(coq_props=["Properties_C13_bp128"], files=FILES, generate=generate_C13, oracles=ORACLES_C13,
                 classify=classify, search=search, assumptions=ASSUME,
                 rule="bp128: valid encodings of lengths 1..3, 127..130, 256, 257, 300 decoded with every capacity 0..count "
                      "(all capacities for the short ones, block boundaries +-1 and random ones otherwise) into an output "
                      "array of exactly `cap` elements inside canaries; arbitrary block streams with capacities around the "
                      "announced counts",
-                configs_quick=["pinned", "O0"], configs_thorough=CFG_T),
+                configs_quick=["pinned", "O0", "native"], configs_thorough=CFG_T),
     "C16": dict(coq_props=["Properties_C16_bp128"], files=FILES, generate=generate_C16, oracles=ORACLES_C16,
                 classify=classify, search=search, assumptions=ASSUME,
                 rule="bp128: meta (count, blockCount, encodedBytes, lastBlockSize, maxBitWidth) of the four encoders and "
                      "varintBP128GetCount (Encode64 layout) for every length 1..299 and the C02 array families; the meta "
                      "struct is pre-filled with 0xEE so an unwritten field shows",
-                configs_quick=["pinned", "O0"], configs_thorough=CFG_T),
+                configs_quick=["pinned", "O0", "native"], configs_thorough=CFG_T),
 }
